@@ -258,9 +258,13 @@ func (d *Dev) GetOperState() uint8 {
 }
 func (d *Dev) GetAddrs() []*bnet.Prefix { return d.Addrs }
 
-// Devs implements device.Updater; updates are delivered by Update on the caller's goroutine.
+// Devs implements device.Updater like protocols/device.Server does: Subscribe / Unsubscribe keep
+// the list of clients per device name, Update (= Server.notify) calls DeviceUpdate of the CURRENT
+// subscribers only, on the caller's goroutine and - as notify does - while holding the read lock
+// of the client table; Unsubscribe takes the write lock, so an Unsubscribe made from inside a
+// DeviceUpdate callback waits for itself (reported by the harness' watchdog as blocked).
 type Devs struct {
-	mu      sync.Mutex
+	mu      sync.RWMutex
 	clients map[string][]device.Client
 }
 
@@ -271,14 +275,32 @@ func (d *Devs) Subscribe(c device.Client, name string) {
 	defer d.mu.Unlock()
 	d.clients[name] = append(d.clients[name], c)
 }
-func (d *Devs) Unsubscribe(c device.Client, name string) {}
-func (d *Devs) Start() error                             { return nil }
+
+func (d *Devs) Unsubscribe(c device.Client, name string) {
+	d.mu.Lock()
+	defer d.mu.Unlock()
+	cs := d.clients[name]
+	for i := range cs {
+		if cs[i] == c {
+			d.clients[name] = append(cs[:i:i], cs[i+1:]...)
+			return
+		}
+	}
+}
+
+func (d *Devs) Start() error { return nil }
+
+// Subscribed returns the number of clients registered for the device.
+func (d *Devs) Subscribed(name string) int {
+	d.mu.RLock()
+	defer d.mu.RUnlock()
+	return len(d.clients[name])
+}
 
 func (d *Devs) Update(name string, dev *Dev) {
-	d.mu.Lock()
-	cs := append([]device.Client(nil), d.clients[name]...)
-	d.mu.Unlock()
-	for _, c := range cs {
+	d.mu.RLock()
+	defer d.mu.RUnlock()
+	for _, c := range d.clients[name] {
 		c.DeviceUpdate(dev)
 	}
 }
